@@ -115,6 +115,9 @@ PROPS["C34"] = B("cases are 2-4 concurrent tasks x 1-3 calls from {Join, Leave, 
 PROPS["C07"] = B("cases are 1-3 queries (ack on/off, timeouts 0.5-3 s) issued concurrently on a real node with a 3-member memberlist, then 3-14 replies (acks, responses, duplicates from the same node, wrong id, wrong Lamport time, from unknown nodes) delivered by 1-3 concurrent tasks, optionally one more concurrent Query, with fake-clock advances racing so that the timeout closes streams between reply steps; plus the PRNG-chosen schedule at every lock/channel yield; distinct = distinct (workload, schedule) hash; non-trivial = more than one decision point with several runnable goroutines",
     "Seeded schedule exploration of the real reply routing (overlay copies of serf.go/query.go with yields, cooperative mutexes). Oracle per query: at most one ack and one response per node, every payload carries the query's own tag, both streams are closed after the deadline, and the process survives (send on closed channel / double close are fatal and attributed to the run). Exact replay.",
     quick=(2500, 60), thorough=(150000, 1200))
+PROPS["C28"] = B("cases are 1-3 user tasks x 1-2 subscriptions (Stream, Monitor, Query) against the real RPC client connected over net.Pipe to a scripted agent that acknowledges, pushes 0-3 records per subscription, refuses some subscriptions and may drop the connection mid-stream, with Stop(handle) and Close() issued concurrently after 0-5 yields; plus the PRNG-chosen schedule at every lock/channel yield of the instrumented rpc_client.go (reader goroutine vs. users); distinct = distinct (workload, schedule) hash; non-trivial = more than one decision point with several runnable goroutines",
+    "Seeded schedule exploration of the real client (overlay copy of client/rpc_client.go: yields, cooperative mutexes, dialable over net.Pipe). Oracle: the process survives (send on closed channel and double close are fatal and attributed to the run), every call returns, and every subscriber channel whose Stop/Close returned is closed. Exact replay.",
+    quick=(3000, 60), thorough=(200000, 1200))
 PROPS["C14"] = D("cases are seeded histories against a real Serf node whose snapshot lives on simfs: user events and queries delivered by gossip and push/pull, real joins (with/without ignoreOld) against a real peer holding events, fake-time advances around the 500 ms flush interval, and 1-3 restarts (crash: only bytes already handed to the OS survive; or clean shutdown) followed by old and new messages; distinct = distinct step-list hash; non-trivial = messages injected after a restart",
     "Seeded exploration; E and Q are read by the real recovery from the image the restart starts from; any user event with time <= E or query with time <= Q on the application channel after the restart is a violation. Exact replay.",
     quick=(2500, 60), thorough=(100000, 1200),
